@@ -117,6 +117,14 @@ def gen_case(rng, cid, table, force=None):
         for c in rng.sample(cands, min(len(cands), 2)):
             chx = rng.choice([defch - 1, defch - 1, rng.randrange(16)])
             body += ["midiin %02x%02x40" % (0x90 | chx, (keymaps[defmap][c] + off0) % 256), "led.state", "led.frame"]
+    if lit and rng.random() < 0.35:
+        # the same note switched on twice (two keyboards merged into one MIDI stream, a retriggered pad), then off once:
+        # the note is off
+        c = rng.choice(lit)
+        chx = rng.choice([defch - 1, defch - 1, rng.randrange(16)])
+        pn = keymaps[defmap][c] + off0
+        body += ["midiin %02x%02x40" % (0x90 | chx, pn)] * rng.choice([2, 2, 3]) + ["led.state", "led.frame"]
+        body += [rng.choice(["midiin %02x%02x40" % (0x80 | chx, pn), "midiin %02x%02x00" % (0x90 | chx, pn)]), "led.state", "led.frame"]
     if lit and rng.random() < 0.4:
         # the same pitch sounding on several MIDI-input channels at once: the current one, a lower and a higher one, in a
         # random order of arrival — the current channel's external colour must win, else the lowest other channel's colour
